@@ -1,15 +1,14 @@
 /-
-C01 helper lemmas, part 3: one record, then a whole history, read back by the line-structured
-specification reader (`Spec.Format`, through `runLines`).
+C01 helper lemmas, part 3: one record, then a whole history, read back by the MODEL reader
+(`Fmt.scanLine` / `readLines`).
 
 What the reader makes of a single line is taken here as hypotheses on the records
 (`CfgGood`, `BenchGood`, `UnitGood`); `C01Tokens.lean` derives them from well-formedness.
 -/
 import Proofs.Lemmas.C01Config
-import Proofs.Lemmas.C02Reader
 
 namespace C01
-open Fmt Spec.Format Spec.RoundTrip
+open Fmt Spec.RoundTrip
 
 /-! ### observations with the file configuration as a function -/
 
@@ -24,15 +23,9 @@ def fmOf (get : Bytes → Option (Bytes × Bool)) : Bytes → Option Bytes := fu
   | some (v, true) => some v
   | _ => none
 
-/-- a record of the model reader / of a history -/
+/-- a record with its `Config` list read as a map -/
 def aobsRec : Rec → AObs
   | .result r => .result r.name r.iters (r.values.map written) (fmOf (cfgGet r.config))
-  | .unit u => .unit u.origUnit u.key u.value u.unit
-  | .err e => .err e.msg
-
-/-- a record of the specification reader -/
-def aobsS : SRec → AObs
-  | .result r => .result r.name r.iters (r.values.map written) (fmOf (CMap.get r.config))
   | .unit u => .unit u.origUnit u.key u.value u.unit
   | .err e => .err e.msg
 
@@ -42,11 +35,11 @@ def kept (h : List Rec) : List Rec :=
     | .err _ => false
     | _ => true
 
-theorem fmOf_link {fc : FC} {m : CMap} (hl : Link fc m) (g : Bytes → Option (Bytes × Bool))
-    (hg : ∀ k, fc.get k = g k) : fmOf (CMap.get m) = fmOf g := by
+theorem fmOf_link {fc : FC} {s : Store} (hl : Link fc s) (g : Bytes → Option (Bytes × Bool))
+    (hg : ∀ k, fc.get k = g k) : fmOf (cfgGet s.live) = fmOf g := by
   funext k
   unfold fmOf
-  rw [hl k, hg k]
+  rw [Store.cfgGet_live hl.inv, hl.map k, hg k]
   cases g k with
   | none => rfl
   | some vf => obtain ⟨v, f⟩ := vf; cases f <;> rfl
@@ -59,15 +52,15 @@ def BenchGood (O : Oracles) (P : WParams) (r : Res) : Prop :=
     vals.map written = r.values.map written
 
 /-- the unit-metadata line of `u` yields `u` when its (tidied unit, key) is not yet set -/
-def UnitGood (O : Oracles) (fn : Bytes) (u : UnitMeta) : Prop :=
-  ∀ m units n, units.get u.unit u.key = none →
-    lineRecs O fn m units n (unitLine u) =
-      (m, units.insert ⟨u.unit, u.key, u.origUnit, u.value, fn, n⟩,
-        [.unit ⟨u.unit, u.key, u.origUnit, u.value, fn, n⟩])
+def UnitGood (O : Oracles) (u : UnitMeta) : Prop :=
+  ∀ st : RState, st.units.get u.unit u.key = none →
+    scanLine O st (unitLine u) =
+      ({ next st with units := st.units.insert ⟨u.unit, u.key, u.origUnit, u.value, st.fileName, st.line + 1⟩ },
+        [.unit ⟨u.unit, u.key, u.origUnit, u.value, st.fileName, st.line + 1⟩])
 
-def RecGood (O : Oracles) (P : WParams) (fn : Bytes) : Rec → Prop
-  | .result r => (r.config.map Cfg.key).Nodup ∧ (∀ c ∈ r.config, CfgGood O fn c) ∧ BenchGood O P r
-  | .unit u => UnitGood O fn u
+def RecGood (O : Oracles) (P : WParams) : Rec → Prop
+  | .result r => (r.config.map Cfg.key).Nodup ∧ (∀ c ∈ r.config, CfgGood O c) ∧ BenchGood O P r
+  | .unit u => UnitGood O u
   | .err _ => True
 
 /-- the unit-metadata records of the history set pairwise different (tidied unit, key) pairs,
@@ -84,134 +77,107 @@ theorem hasPrefix_append (p rest : Bytes) : Bytes.hasPrefix (p ++ rest) p = true
   | nil => cases rest <;> rfl
   | cons c cs ih => simp [Bytes.hasPrefix, ih]
 
-theorem bench_lineRecs (O : Oracles) (P : WParams) (fn : Bytes) (r : Res) (vals : List Val)
-    (hp : parseBenchmarkLine O (benchLine P r) = .ok r.name r.iters vals)
-    (m : CMap) (u : UnitMap) (n : Nat) :
-    lineRecs O fn m u n (benchLine P r) = (m, u, [.result ⟨m, r.name, r.iters, vals, fn, n⟩]) := by
+theorem bench_scanLine (O : Oracles) (P : WParams) (r : Res) (vals : List Val)
+    (hp : parseBenchmarkLine O (benchLine P r) = .ok r.name r.iters vals) (st : RState) :
+    scanLine O st (benchLine P r) =
+      (next st, [.result ⟨st.store.live, r.name, r.iters, vals, st.fileName, st.line + 1⟩]) := by
   have hpre : Bytes.hasPrefix (benchLine P r) benchmarkPrefix = true := by
     unfold benchLine
     simp only [List.append_assoc]
     exact hasPrefix_append _ _
-  have hc : classify O (benchLine P r) = .bench := by
-    unfold classify
-    simp [hpre, hp]
-  unfold lineRecs
-  rw [hc]
-  simp only [hp]
+  unfold scanLine
+  simp only [hpre, ↓reduceIte, hp, next]
 
 /-! ### one record -/
 
 /-- The invariant linking the writer to a reader of its output. -/
-structure Inv (O : Oracles) (fn : Bytes) (w : WState) (m : CMap) : Prop where
+structure Inv (O : Oracles) (w : WState) (s : Store) : Prop where
   winv : WInv w
-  link : Link w.fileConfig m
-  good : FCGood O fn w.fileConfig
+  link : Link w.fileConfig s
+  good : FCGood O w.fileConfig
 
-theorem inv_new (O : Oracles) (fn : Bytes) : Inv O fn WState.new [] :=
-  ⟨winv_new, fun k => by simp [WState.new, FC.get, CMap.get, fileOnly], fun k v f h => by
-    simp [WState.new, FC.get] at h⟩
+theorem toMap_reset' (s : Store) (k : Bytes) : s.reset.toMap k = none := by
+  simp [Store.toMap, Store.get, Store.configIndex, Store.index_reset, Index.get]
+
+theorem inv_new (O : Oracles) (s : Store) : Inv O WState.new s.reset :=
+  ⟨winv_new, ⟨Store.inv_reset s, fun k => by rw [toMap_reset']; simp [WState.new, FC.get, fileOnly]⟩,
+    fun k v f h => by simp [WState.new, FC.get] at h⟩
 
 theorem winv_first {w : WState} (h : WInv w) (b : Bool) : WInv { w with first := b } :=
   ⟨h.order_nodup, h.keys_nodup, h.order_iff⟩
 
-theorem result_step (O : Oracles) (P : WParams) (fn : Bytes) (w : WState) (m : CMap) (r : Res)
-    (hi : Inv O fn w m) (hnd : (r.config.map Cfg.key).Nodup) (hcfg : ∀ c ∈ r.config, CfgGood O fn c)
-    (hb : BenchGood O P r) (u : UnitMap) :
-    ∃ m', Inv O fn (writeResult P w r).1 m' ∧
-      (∀ k, (writeResult P w r).1.fileConfig.get k = cfgGet r.config k) ∧
-      ∀ n, ∃ out, runLines O fn m u n (writeResult P w r).2 = (m', u, out) ∧
-        out.map aobsS = [aobsRec (.result r)] := by
+/-- the state the reader is in after the lines of one result, and what it delivered -/
+theorem result_step (O : Oracles) (P : WParams) (w : WState) (st : RState) (r : Res)
+    (hi : Inv O w st.store) (hnd : (r.config.map Cfg.key).Nodup) (hcfg : ∀ c ∈ r.config, CfgGood O c)
+    (hb : BenchGood O P r) :
+    Inv O (writeResult P w r).1 (finalState O st (writeResult P w r).2).store ∧
+    (∀ k, (writeResult P w r).1.fileConfig.get k = cfgGet r.config k) ∧
+    (finalState O st (writeResult P w r).2).units = st.units ∧
+    (finalState O st (writeResult P w r).2).fileName = st.fileName ∧
+    (readLines O st (writeResult P w r).2).map aobsRec = [aobsRec (.result r)] := by
   obtain ⟨vals, hp, hvals⟩ := hb
   -- the configuration block (if any)
-  have hblock : ∃ m', Inv O fn (if needFileConfig w.fileConfig r.config then writeFileConfig w r.config else (w, [])).1 m' ∧
+  have hblock : Inv O (if needFileConfig w.fileConfig r.config then writeFileConfig w r.config else (w, [])).1
+        (finalState O st (if needFileConfig w.fileConfig r.config then writeFileConfig w r.config else (w, [])).2).store ∧
       (∀ k, (if needFileConfig w.fileConfig r.config then writeFileConfig w r.config else (w, [])).1.fileConfig.get k =
         cfgGet r.config k) ∧
-      ∀ n, runLines O fn m u n (if needFileConfig w.fileConfig r.config then writeFileConfig w r.config else (w, [])).2 =
-        (m', u, []) := by
+      Block O st (if needFileConfig w.fileConfig r.config then writeFileConfig w r.config else (w, [])).2
+        (if needFileConfig w.fileConfig r.config then writeFileConfig w r.config else (w, [])).1.fileConfig := by
     by_cases hneed : needFileConfig w.fileConfig r.config = true
     · simp only [hneed, ↓reduceIte]
-      obtain ⟨hfc, hw', hread⟩ := writeFileConfig_spec O fn w r.config hi.winv hnd
-      obtain ⟨hg', m', hr, hl'⟩ := hread m u hcfg hi.link hi.good
-      exact ⟨m', ⟨hw', hl', hg'⟩, hfc, hr⟩
+      obtain ⟨hfc, hw', hread⟩ := writeFileConfig_spec O w r.config hi.winv hnd
+      obtain ⟨hg', hblk⟩ := hread st hcfg hi.link hi.good
+      exact ⟨⟨hw', hblk.link, hg'⟩, hfc, hblk⟩
     · have hneed' : needFileConfig w.fileConfig r.config = false := by simpa using hneed
       simp only [hneed', Bool.false_eq_true, ↓reduceIte]
-      exact ⟨m, hi, noChange_spec _ _ hi.winv.keys_nodup hnd hneed', fun n => rfl⟩
-  obtain ⟨m', hi', hfc, hr⟩ := hblock
-  refine ⟨m', ⟨winv_first hi'.winv false, hi'.link, hi'.good⟩, hfc, fun n => ?_⟩
-  refine ⟨[.result ⟨m', r.name, r.iters, vals, fn, n +
-    (if needFileConfig w.fileConfig r.config then writeFileConfig w r.config else (w, [])).2.length⟩], ?_, ?_⟩
-  · unfold writeResult
-    simp only
-    rw [runLines_append, hr n]
-    simp only [runLines, bench_lineRecs O P fn r vals hp, List.nil_append, List.append_nil]
-  · simp only [List.map_cons, List.map_nil, aobsS, aobsRec, hvals]
-    rw [fmOf_link hi'.link (cfgGet r.config) hfc]
+      exact ⟨hi, noChange_spec _ _ hi.winv.keys_nodup hnd hneed', block_nil O hi.link⟩
+  obtain ⟨hi', hfc, hblk⟩ := hblock
+  have hbl := bench_scanLine O P r vals hp
+    (finalState O st (if needFileConfig w.fileConfig r.config then writeFileConfig w r.config else (w, [])).2)
+  unfold writeResult
+  simp only
+  rw [finalState_append', readLines_append', hblk.quiet]
+  simp only [finalState, readLines, hbl, List.nil_append, List.append_nil, next]
+  refine ⟨⟨winv_first hi'.winv false, hi'.link, hi'.good⟩, hfc, hblk.units, hblk.fileName, ?_⟩
+  simp only [List.map_cons, List.map_nil, aobsRec, hvals]
+  rw [fmOf_link hi'.link (cfgGet r.config) hfc]
 
 /-! ### a history -/
 
-theorem history_lines (O : Oracles) (P : WParams) (fn : Bytes) :
-    ∀ (h : List Rec) (w : WState) (m : CMap) (units : UnitMap) (n : Nat),
-      Inv O fn w m → (∀ r ∈ h, RecGood O P fn r) → UnitsFresh units h →
-      ((runLines O fn m units n (Writer.writeFrom P w h)).2.2).map aobsS = (kept h).map aobsRec := by
+theorem history_lines (O : Oracles) (P : WParams) :
+    ∀ (h : List Rec) (w : WState) (st : RState),
+      Inv O w st.store → (∀ r ∈ h, RecGood O P r) → UnitsFresh st.units h →
+      (readLines O st (Writer.writeFrom P w h)).map aobsRec = (kept h).map aobsRec ∧
+      Inv O (Writer.stateAfter P w h) (finalState O st (Writer.writeFrom P w h)).store := by
   intro h
   induction h with
-  | nil => intro w m units n _ _ _; rfl
+  | nil => intro w st hi _ _; exact ⟨rfl, hi⟩
   | cons rec rest ih =>
-    intro w m units n hi hgood hfresh
-    have hrest : ∀ r ∈ rest, RecGood O P fn r := fun r hr => hgood r (List.mem_cons_of_mem _ hr)
+    intro w st hi hgood hfresh
+    have hrest : ∀ r ∈ rest, RecGood O P r := fun r hr => hgood r (List.mem_cons_of_mem _ hr)
     have hrec := hgood rec List.mem_cons_self
     cases rec with
     | err e =>
-      simp only [Writer.writeFrom, Writer.write, List.nil_append, kept, List.filter_cons]
-      exact ih w m units n hi hrest hfresh
+      simp only [Writer.writeFrom, Writer.stateAfter, Writer.write, List.nil_append, kept, List.filter_cons]
+      exact ih w st hi hrest hfresh
     | unit um =>
       obtain ⟨hnone, hf'⟩ := hfresh
-      have hl := hrec m units n hnone
-      simp only [Writer.writeFrom, Writer.write, kept, List.filter_cons, List.cons_append,
-        List.nil_append, runLines, hl, List.map_cons, List.map_append]
-      rw [ih w m _ (n + 1) hi hrest (hf' fn n)]
-      simp [aobsS, aobsRec, kept]
+      have hl := hrec st hnone
+      obtain ⟨h1, h2⟩ := ih w
+        { next st with units := st.units.insert ⟨um.unit, um.key, um.origUnit, um.value, st.fileName, st.line + 1⟩ }
+        hi hrest (hf' st.fileName (st.line + 1))
+      simp only [Writer.writeFrom, Writer.stateAfter, Writer.write, kept, List.filter_cons, List.cons_append,
+        List.nil_append, readLines, finalState, hl, List.map_cons, List.map_append]
+      refine ⟨?_, h2⟩
+      rw [h1]
+      simp [aobsRec, kept]
     | result r =>
       obtain ⟨hnd, hcfg, hb⟩ := hrec
-      obtain ⟨m', hi', _, hrun⟩ := result_step O P fn w m r hi hnd hcfg hb units
-      obtain ⟨out, hr, hout⟩ := hrun n
-      simp only [Writer.writeFrom, Writer.write, kept, List.filter_cons, List.map_cons]
-      rw [runLines_append]
-      simp only [hr, List.map_append, hout]
-      rw [ih _ m' units _ hi' hrest hfresh]
-      simp [kept]
-
-/-- The writer/reader invariant along a history: after every prefix, a reader of the lines
-written so far holds exactly the file part of the last result's configuration, and the
-writer's `fileConfig` is that result's configuration as a map. -/
-theorem history_inv (O : Oracles) (P : WParams) (fn : Bytes) :
-    ∀ (h : List Rec) (w : WState) (m : CMap) (units : UnitMap) (n : Nat),
-      Inv O fn w m → (∀ r ∈ h, RecGood O P fn r) → UnitsFresh units h →
-      Inv O fn (Writer.stateAfter P w h) (runLines O fn m units n (Writer.writeFrom P w h)).1 := by
-  intro h
-  induction h with
-  | nil => intro w m units n hi _ _; exact hi
-  | cons rec rest ih =>
-    intro w m units n hi hgood hfresh
-    have hrest : ∀ r ∈ rest, RecGood O P fn r := fun r hr => hgood r (List.mem_cons_of_mem _ hr)
-    have hrec := hgood rec List.mem_cons_self
-    cases rec with
-    | err e =>
-      simp only [Writer.writeFrom, Writer.stateAfter, Writer.write, List.nil_append]
-      exact ih w m units n hi hrest hfresh
-    | unit um =>
-      obtain ⟨hnone, hf'⟩ := hfresh
-      have hl := hrec m units n hnone
-      simp only [Writer.writeFrom, Writer.stateAfter, Writer.write, List.cons_append, List.nil_append,
-        runLines, hl]
-      exact ih w m _ (n + 1) hi hrest (hf' fn n)
-    | result r =>
-      obtain ⟨hnd, hcfg, hb⟩ := hrec
-      obtain ⟨m', hi', _, hrun⟩ := result_step O P fn w m r hi hnd hcfg hb units
-      obtain ⟨out, hr, _⟩ := hrun n
-      simp only [Writer.writeFrom, Writer.stateAfter, Writer.write]
-      rw [runLines_append]
-      simp only [hr]
-      exact ih _ m' units _ hi' hrest hfresh
+      obtain ⟨hi', _, hu, _, hout⟩ := result_step O P w st r hi hnd hcfg hb
+      obtain ⟨h1, h2⟩ := ih (writeResult P w r).1 (finalState O st (writeResult P w r).2) hi' hrest
+        (by rw [hu]; exact hfresh)
+      simp only [Writer.writeFrom, Writer.stateAfter, Writer.write, kept, List.filter_cons, List.map_cons]
+      rw [readLines_append', finalState_append', List.map_append, hout, h1]
+      exact ⟨by simp [kept], h2⟩
 
 end C01
